@@ -6,6 +6,7 @@ Oracle: client response (h11, gunzip) vs file-system ground truth; audit 'open' 
 must never name a decoy (a planted file outside the root).
 """
 import os
+import time
 import gzip
 import shutil
 import random
@@ -40,6 +41,7 @@ EXHAUSTIVE = {'quick': ['all paths of <= 3 alphabet tokens'], 'thorough': ['all 
 
 TOKENS = ['/', '.', '..', '%2e', '%2e%2e', '%2f', '%00', '//', 'a.txt', 'sub', 'c.txt', 'secret.txt', 'public-secret',
           'x.txt', 'public', 'nope', '..;', '\\', '%5c', '%2E%2E']
+DASH_TOKENS = ['/', '.', '..', '%2e%2e', '//', 'dashboard', 'dashboard', 'proxy.html', 'app.js', 'secret.txt', 'a.txt', 'public-secret', 'x.txt', '?']
 TREE = {
     'public/a.txt': 'tiny',                       # below the compression threshold
     'public/index.html': '<html>index ' + 'i' * 100 + '</html>',
@@ -51,6 +53,8 @@ TREE = {
     'public/..hidden': 'name starting with two dots, inside the root',
     'public/%41.txt': 'file whose name contains a literal percent sign',
     'public/public/x.txt': 'nested directory named like the root',
+    'public/dashboard/proxy.html': '<html>the dashboard single page app, long enough to be compressed when asked for</html>',
+    'public/dashboard/app.js': 'console.log("dashboard asset")',
     # decoys: everything below must never be served nor opened
     'secret.txt': 'DECOY parent secret.txt',
     'a.txt': 'DECOY parent a.txt',
@@ -90,6 +94,8 @@ def begin(tier: str) -> None:
         data = open(full, 'rb').read()
         (_state['inside'] if rel.startswith('public/') else _state['decoys'])[full] = data
     _state['flags'] = make_flags(['--enable-static-server', '--static-server-dir', root], cache_key='c13:' + root)
+    # --enable-dashboard: documented option that turns the static server on and loads the dashboard's own route plugins next to it
+    _state['flags_dashboard'] = make_flags(['--enable-dashboard', '--static-server-dir', root], cache_key='c13d:' + root)
     _state['flags_routed'] = make_flags(['--enable-static-server', '--static-server-dir', root], plugins=[KeepRoute],
                                         cache_key='c13r:' + root)
 
@@ -117,11 +123,24 @@ def expected_files(path: bytes) -> List[str]:
     return out
 
 
+def _inside_root(path: bytes) -> bool:
+    root = _state['root']
+    nq = path.split(b'?', 1)[0]
+    for cand in {nq, unquote_to_bytes(nq)}:
+        try:
+            full = posixpath.normpath(root + cand.decode('utf-8'))
+        except UnicodeDecodeError:
+            return False
+        if not (full == root or full.startswith(root + '/')):
+            return False
+    return True
+
+
 def fetch(path: bytes, position: str = 'first') -> Dict[str, Any]:
     """position: 'first' = only request of its connection (static server alone); 'routed-first' = the same with a web route
     configured next to it; 'after-route' = follow-up on a keep-alive connection whose first request was answered by a route;
     'pipelined' = the same with both requests in one segment."""
-    rig = StepRig(_state['flags'] if position == 'first' else _state['flags_routed'], 'local')
+    rig = StepRig(_state['flags'] if position == 'first' else _state['flags_dashboard'] if position == 'dashboard' else _state['flags_routed'], 'local')
     alog = audit.start()
     try:
         c = rig.add_client('unix')
@@ -187,7 +206,7 @@ def classify_path(path: bytes) -> str:
     return '+'.join(f) or 'plain'
 
 
-def judge(path: bytes, r: Dict[str, Any], demand_service: bool = True) -> List[Tuple[str, Any]]:
+def judge(path: bytes, r: Dict[str, Any], demand_service: bool = True, routes_may_answer: bool = False) -> List[Tuple[str, Any]]:
     bad: List[Tuple[str, Any]] = []
     if r.get('lead_missing'):
         return [('route-reply-missing-before-follow-up', r['raw'][:80])]
@@ -209,6 +228,8 @@ def judge(path: bytes, r: Dict[str, Any], demand_service: bool = True) -> List[T
         if body in decoys.values():
             which = [k for k, v in decoys.items() if v == body][0]
             bad.append(('served-file-outside-root', which[len(_state['base']):]))
+        elif not exp and routes_may_answer and body in inside.values() and _inside_root(path):
+            pass    # a route plugin answered a path that stays inside the root (a directory: its index page) with a file from inside
         elif not exp:
             bad.append(('200-for-path-naming-nothing-inside-root', (body or b'')[:60]))
         elif body not in [inside[e] for e in exp]:
@@ -228,19 +249,62 @@ def judge(path: bytes, r: Dict[str, Any], demand_service: bool = True) -> List[T
         elif code == 'no-response':
             if exp and canonical:
                 bad.append(('no-response-for-existing-file', None))
-        elif (exp and canonical) or int(code) < 400:
+        elif (exp and canonical) or (int(code) < 400 and not (routes_may_answer and 300 <= int(code) < 400)):
             bad.append(('unexpected-status-' + code, None))
     return bad
 
 
+def run_rewrite(case: Dict[str, Any]) -> Dict[str, Any]:
+    """Served content is the file's content *now*: a file is requested, rewritten (same length, same modification second -
+    the way a deploy script or an editor's atomic save can leave it), requested again, and so on."""
+    rng = random.Random('c13w:%s:%s' % (case['seed'], case['i']))
+    viol: Dict[str, Dict[str, Any]] = {}
+    obs: Dict[str, int] = {'rewrite_rounds': 0}
+    name = 'live-%d-%d.%s' % (os.getpid(), case['i'], case['ext'])
+    full = os.path.join(_state['root'], name)
+    n = case['size']
+    t0 = int(time.time()) - 5
+    try:
+        for rnd in range(case['rounds']):
+            content = (b'v%03d:' % rnd + bytes(rng.choice(b'abcdefghijklmnopqrstuvwxyz') for _ in range(n)))[:max(n, 5)]
+            how = case['how']
+            if how == 'replace':
+                tmp = full + '.tmp'
+                with open(tmp, 'wb') as f:
+                    f.write(content)
+                os.utime(tmp, (t0, t0))
+                os.replace(tmp, full)
+            else:
+                with open(full, 'wb') as f:
+                    f.write(content)
+                if how == 'same-second':
+                    os.utime(full, (t0, t0))
+            for pos in case['positions']:
+                r = fetch(('/' + name).encode(), pos)
+                code, body = outcome(('/' + name).encode(), r)
+                obs['rewrite_rounds'] += 1
+                if code != '200' or body != content:
+                    key = 'served-content-differs-from-the-file-as-it-is-now|%s@%s' % (how, pos)
+                    viol.setdefault(key, {'key': key, 'detail': {'round': rnd, 'status': code, 'served': (body or b'')[:12], 'file': content[:12], 'size': n}})
+    finally:
+        try:
+            os.unlink(full)
+        except OSError:
+            pass
+    return {'viol': list(viol.values()), 'nontrivial': True, 'sig': 'rewrite/%s/%s/%d' % (case['how'], case['ext'], n), 'obs': obs,
+            'sets': {'path_classes': set(), 'outcomes': set()}, 'sample': [{'case': case}]}
+
+
 def run_case(case: Dict[str, Any]) -> Dict[str, Any]:
+    if case.get('kind') == 'rewrite':
+        return run_rewrite(case)
     viol: Dict[str, Dict[str, Any]] = {}
     obs: Dict[str, int] = {}
     sets: Dict[str, set] = {'path_classes': set(), 'outcomes': set()}
     nontriv = 0
     sample = []
     for pt in case['paths']:
-        path = pt.encode('latin-1')
+        path = pt.replace('{BASE}', _state['base']).encode('latin-1')       # (an absolute path spliced in: os.path.join would drop the root)
         r = fetch(path)
         code, body = outcome(path, r)
         cl = classify_path(path)
@@ -273,7 +337,7 @@ def run_case(case: Dict[str, Any]) -> Dict[str, Any]:
             c3, _b3 = outcome(path, r3)
             obs['pos:%s' % pos] = obs.get('pos:%s' % pos, 0) + 1
             obs['pos_status:%s:%s' % (pos, c3)] = obs.get('pos_status:%s:%s' % (pos, c3), 0) + 1
-            for (what, d) in judge(path, r3, demand_service=(pos == 'routed-first')):
+            for (what, d) in judge(path, r3, demand_service=(pos == 'routed-first'), routes_may_answer=(pos == 'dashboard')):
                 key = '%s|%s@%s' % (what, cl, pos)
                 viol.setdefault(key, {'key': key, 'detail': {'path': path, 'diff': d, 'status': c3, 'position': pos}})
         if len(sample) < 3 and cl != 'plain':
@@ -326,6 +390,22 @@ def cases(tier: str, seed: int):
                 block = []
     if block:
         yield emit(block)
+    wrng = random.Random('c13w:%d' % seed)
+    for k in range(12 if tier == 'quick' else 200):
+        i += 1
+        yield {'seed': seed, 'i': i, 'kind': 'rewrite', 'how': ['same-second', 'replace', 'plain'][k % 3], 'ext': wrng.choice(['txt', 'js', 'bin', 'html']),
+               'size': wrng.choice([5, 19, 21, 300, 5000]), 'rounds': 4, 'positions': ['first', 'routed-first'] if k % 2 else ['first']}
+    drng = random.Random('c13d:%d' % seed)
+    yield emit(['/dashboard', '/dashboard/', '/dashboard/proxy.html', '/dashboard/app.js', '/dashboard/../a.txt', '/dashboard/../../secret.txt',
+                '/dashboard/../../a.txt', '/dashboard/./../../secret.txt', '/dashboard/../../secret.txt?x=1', '/dashboard/{BASE}/secret.txt', '/dashboard/x/{BASE}/secret.txt',
+                '/dashboard/../../public-secret/x.txt', '/dashboard/x/../../../secret.txt', '/dashboard/%2e%2e/%2e%2e/secret.txt', '/dashboard/nope'],
+               positions=['dashboard'])
+    for _ in range(25 if tier == 'quick' else 600):
+        paths = []
+        for _ in range(40):
+            combo = [drng.choice(DASH_TOKENS) for _ in range(drng.randint(2, 7))]
+            paths.append('/dashboard/' + ''.join(_join(combo)))
+        yield emit(paths, positions=['dashboard'])
     rng = random.Random('c13:%d' % seed)
     for _ in range(60 if tier == 'quick' else 2500):
         paths = []
@@ -355,7 +435,7 @@ def _join(combo: Any) -> List[str]:
 def floors(tier: str) -> Dict[str, int]:
     return {'paths': 3000, 'status:200': 40, 'status:404': 1000, 'nontrivial_paths': 1000, 'open_events': 1000,
             'query_variants': 1500, 'distinct:path_classes': 10,
-            'pos:routed-first': 800, 'pos:after-route': 800, 'pos:pipelined': 800}
+            'pos:routed-first': 800, 'pos:after-route': 800, 'pos:pipelined': 800, 'pos:dashboard': 800, 'rewrite_rounds': 40}
 
 
 if __name__ == '__main__':
